@@ -10,23 +10,25 @@ from vlib import VI, VL
 import regen_c17
 
 PID = "C17"
-THEOREMS_GENERAL = ["fresh_indices", "fresh_between_artifacts", "ctr_pair_unique", "restart_redraws",
+THEOREMS_GENERAL = ["fresh_indices", "fresh_between_artifacts", "ctr_pair_unique", "config_reuse_fresh", "restart_redraws",
                     "import_time_default_is_shared", "user_secret_kept"]
 THEOREMS_THIS_TREE = ["sites_all_percall", "fresh_for_this_tree"]      # depend on the generated site table
 KIND = {1: "BootImageV20", 2: "BootImageV21", 3: "BootImageV21.load_from_config+export", 4: "MBI encrypted_signed_ram",
         5: "OTFAD KeyBlob", 6: "IeeKeyBlob", 7: "BeeProtectRegionBlock", 8: "BeeKIB", 9: "BeeRegionHeader",
         10: "BeeNxp.load_from_config", 11: "CsfHabSegment.get_dek_from_config", 12: "HabContainer.load_from_config",
-        13: "CsfHabSegment.generate_nonce"}
+        13: "CsfHabSegment.generate_nonce", 14: "IeeNxp.load_from_config", 15: "OtfadNxp.load_from_config",
+        16: "BootImageV21.get_advanced_params"}
 FIELD = {1: "dek", 2: "mac", 3: "nonce", 4: "header_padding", 5: "export_header_padding", 6: "keyblob_filler", 7: "ctr_init_vector",
-         8: "key", 9: "counter_iv", 10: "key1", 11: "key2", 12: "prdb_counter", 13: "kib_key", 14: "kib_iv", 15: "sw_key",
+         8: "key", 9: "counter_iv", 10: "key1", 11: "key2", 12: "prdb_counter", 13: "kib_key", 14: "kib_iv", 15: "sw_key", 16: "kek",
          32: "engine1.prdb_counter", 33: "engine1.kib_key", 34: "engine1.kib_iv", 35: "engine1.sw_key"}
-NARGS = {1: 4, 2: 4, 3: 4, 4: 1, 5: 3, 6: 2, 7: 1, 8: 2, 9: 4, 10: 0, 11: 0, 12: 0, 13: 0}
+NARGS = {1: 4, 2: 4, 3: 4, 4: 1, 5: 3, 6: 2, 7: 1, 8: 2, 9: 4, 10: 0, 11: 0, 12: 0, 13: 0, 14: 2, 15: 3, 16: 4}
 # (kind, field) -> index of the constructor argument that can supply it (None: never user supplied through this op)
 SUPPLY = {(1, 1): 0, (1, 2): 1, (1, 3): 2, (2, 1): 0, (2, 2): 1, (2, 3): 2, (2, 4): 3, (3, 1): 0, (3, 2): 1, (3, 3): 2, (3, 4): 3,
           (4, 7): 0, (5, 8): 0, (5, 9): 1, (6, 10): 0, (6, 11): 1, (7, 12): 0, (8, 13): 0, (8, 14): 1,
-          (9, 12): 0, (9, 15): 1, (9, 13): 2, (9, 14): 3}
+          (9, 12): 0, (9, 15): 1, (9, 13): 2, (9, 14): 3, (14, 10): 0, (14, 11): 1, (15, 16): 0, (15, 8): 1, (15, 9): 2,
+          (16, 1): 0, (16, 2): 1, (16, 3): 2, (16, 4): 3}
 # AES-CTR style (key, nonce) pairs per kind: (key field or None = key always supplied by the user, nonce field)
-PAIRS = {1: (1, 3), 2: (1, 3), 3: (1, 3), 4: (None, 7), 5: (8, 9), 6: (10, 11), 9: (15, 12), 10: (15, 12), 12: (1, 3)}
+PAIRS = {1: (1, 3), 2: (1, 3), 3: (1, 3), 4: (None, 7), 5: (8, 9), 6: (10, 11), 9: (15, 12), 10: (15, 12), 12: (1, 3), 14: (10, 11), 16: (1, 3)}
 
 
 def given(v, n):
@@ -44,7 +46,7 @@ def rand_arg(rng, allow_empty=True):
 
 
 def rand_new(rng, heavy=True):
-    kinds = [1, 1, 2, 2, 2, 4, 4, 4, 5, 5, 6, 6, 7, 8, 9, 9, 10, 11, 13] + ([3, 3, 12, 4] if heavy else [])
+    kinds = [1, 1, 2, 2, 2, 4, 4, 4, 5, 5, 6, 6, 7, 8, 9, 9, 10, 11, 11, 13, 14, 15, 16] + ([3, 3, 12, 4] if heavy else [])
     k = rng.choice(kinds)
     a = [rand_arg(rng) for _ in range(NARGS[k])]
     flag = 0
@@ -67,12 +69,23 @@ def rand_new(rng, heavy=True):
     elif k == 10:
         flag = rng.randrange(6)
     elif k == 11:
-        flag = rng.randrange(3) + 4 * rng.randrange(2)
+        flag = rng.randrange(3) + 4 * rng.choice([0, 0, 1]) + 8 * rng.randrange(2)
+    elif k == 16:
+        a[3] = rng.choice([0, 0, 2])
     elif k == 12:
         flag = rng.choice([0, 0, 0, 1, 2, 3])
     elif k == 13:
         flag = rng.randrange(2)
+    elif k == 14:
+        flag = rng.randrange(3)
+    elif k == 15:
+        a[1] = 2 + rng.randrange(90)
+        a[2] = 2 + rng.randrange(90)
     return [2, k, flag, a]
+
+
+def config_driven(k, flag):
+    return k in (3, 10, 11, 12, 14, 15, 16) or (k == 4 and flag % 4 == 2)
 
 
 def new_succeeds(op):
@@ -82,16 +95,26 @@ def new_succeeds(op):
 
 def gen_history(rng, length, heavy=True):
     ops = [[0]]
-    objs = []       # (kind, alive)
+    objs = []       # (kind, alive, config driven)
     while len(ops) < length:
         r = rng.random()
+        reus = [j for j, o in enumerate(objs) if o[1] and o[2]]
         if r < 0.06 and len(ops) > 2:
             ops.append([0])
-            objs = [(k, False) for (k, _) in objs]
+            objs = [(o[0], False, o[2]) for o in objs]
+        elif r > 0.86 and reus:
+            j = rng.choice(reus)          # the same config object once more
+            ops.append([4, j])
+            objs.append(objs[j])
+        elif r > 0.84 and objs:
+            ops.append([4, rng.randrange(0, len(objs) + 2)])      # possibly stale / not config driven
+            j = ops[-1][1]
+            if j < len(objs) and objs[j][1] and objs[j][2]:
+                objs.append(objs[j])
         elif r < 0.12:
             ops.append([1, rng.randrange(1, 12)])
-        elif r < 0.40 and any(al and k in (1, 4, 5) for k, al in objs):
-            cand = [j for j, (k, al) in enumerate(objs) if al and k in (1, 4, 5)]
+        elif r < 0.40 and any(o[1] and o[0] in (1, 4, 5) for o in objs):
+            cand = [j for j, o in enumerate(objs) if o[1] and o[0] in (1, 4, 5)]
             j = rng.choice(cand)
             k = objs[j][0]
             if k == 1:
@@ -106,7 +129,7 @@ def gen_history(rng, length, heavy=True):
             op = rand_new(rng, heavy)
             ops.append(op)
             if new_succeeds(op):
-                objs.append((op[1], True))
+                objs.append((op[1], True, config_driven(op[1], op[2])))
     return ops
 
 
@@ -127,6 +150,12 @@ def exhaustive_sessions():
                     for ac in (acts or []):
                         ops.append([3, n, ac[0], ac[1]])
                     n += 1
+                    if config_driven(nw[1], nw[2]):       # the same config object again, and once more from the copy's
+                        ops.append([4, n - 1])
+                        n += 1
+                        if rep == 1:
+                            ops.append([4, n - 1])
+                            n += 1
         return ops
     out.append(sess([[2, 1, 0, []]] + [[2, 1, 1, list(c)] for c in itertools.product(A, repeat=4)],
                     acts=[(1, 0), (1, 1), (1, 5), (1, 0)]))
@@ -139,7 +168,8 @@ def exhaustive_sessions():
     out.append(sess([[2, 6, v, list(c)] for v in range(3) for c in itertools.product(A, repeat=2)]))
     out.append(sess([[2, 7, 0, [x]] for x in A] + [[2, 8, 0, list(c)] for c in itertools.product(A, repeat=2)]
                     + [[2, 10, f, []] for f in range(6)] + [[2, 13, f, []] for f in range(2)]
-                    + [[2, 11, f, []] for f in (0, 1, 2, 4, 5, 6)]))
+                    + [[2, 11, f, []] for f in (0, 1, 2, 4, 5, 6, 8, 9, 12, 8)]
+                    + [[2, 16, 1, list(c) + [p]] for c in itertools.product(A, repeat=3) for p in (0, 2)]))
     hdr = []
     for flag in range(4):
         for c in itertools.product(A, [0, 3], A, A):
@@ -150,6 +180,11 @@ def exhaustive_sessions():
             hdr.append([2, 9, flag, list(c)])
     out.append(sess(hdr))
     out.append(sess([[2, 12, f, []] for f in range(4)]))
+    # HAB key file left behind by an earlier build, in a fresh interpreter and in the same one
+    out.append([[0], [2, 12, 0, []], [2, 11, 8, []], [0], [2, 12, 0, []], [2, 11, 8, []], [4, 2], [4, 3], [2, 12, 1, []],
+                [0], [2, 11, 12, []], [2, 11, 8, []], [2, 12, 0, []]])
+    out.append(sess([[2, 14, v, list(c)] for v in range(3) for c in itertools.product(A, repeat=2)]
+                    + [[2, 15, 0, [x, 3, 3]] for x in A]))
     return out
 
 
@@ -177,7 +212,7 @@ def origin_of(kind, field, vhex, draws_by_value, opargs):
     v = bytes.fromhex(vhex)
     if v == b"":
         return ("e",)
-    if kind == 3 and field == 4 and v == bytes(8) and len(opargs) > 3 and opargs[3] >= 2:
+    if kind in (3, 16) and field == 4 and v == bytes(8) and len(opargs) > 3 and opargs[3] >= 2:
         return ("u", opargs[3] - 2)
     if v[0] >= 0x80 and v == bytes([v[0]]) * len(v):
         return ("u", v[0] & 0x7F)
@@ -210,6 +245,15 @@ def impl_trace(sess_ops, results):
                 o = origin_of(op[1], f, vh, by_value, op[3])
                 slots.append((nobj, f, o))
                 if op[1] == 4 and f == 7:
+                    iv[nobj] = o
+            nobj += 1
+        elif op[0] == 4 and r["st"] == 0:
+            kinds[nobj] = kinds[op[1]]
+            k, a = kinds[nobj]
+            for f, vh in r["obs"]:
+                o = origin_of(k, f, vh, by_value, a)
+                slots.append((nobj, f, o))
+                if k == 4 and f == 7:
                     iv[nobj] = o
             nobj += 1
         elif op[0] == 3 and r["st"] == 0:
@@ -255,6 +299,8 @@ def op_expr(op):
         return VL([VI(1), VI(op[1])])
     if t == 2:
         return VL([VI(2), VI(op[1]), VI(op[2]), VL([VI(x) for x in op[3]])])
+    if t == 4:
+        return VL([VI(4), VI(op[1])])
     return VL([VI(3), VI(op[1]), VI(op[2]), VI(op[3])])
 
 
@@ -265,10 +311,15 @@ def secrets_of(sess_ops, results):
     for i, (op, r) in enumerate(zip(sess_ops, results)):
         if op[0] == 0:
             epoch += 1
-        if r["st"] != 0 or op[0] not in (2, 3):
+        if r["st"] != 0 or op[0] not in (2, 3, 4):
             continue
         if op[0] == 2:
             j, k, a, flag = nobj, op[1], list(op[3]) + [0] * 4, op[2]
+            kinds[j] = (k, a, flag, epoch)
+            nobj += 1
+        elif op[0] == 4:      # same configuration object as artifact op[1]: what the user supplied is what he supplied then
+            j = nobj
+            k, a, flag, _ = kinds[op[1]]
             kinds[j] = (k, a, flag, epoch)
             nobj += 1
         else:
@@ -281,12 +332,12 @@ def secrets_of(sess_ops, results):
             sup = None
             if op[0] == 3 and k == 1:
                 sup = op[3]
-            elif op[0] == 2:
+            elif op[0] in (2, 4):
                 idx = SUPPLY.get((k, f))
                 if idx is not None and not (k in (1, 2) and flag == 0) and not (k == 4 and flag % 4 == 0):
                     if not (k == 9 and ((f == 12 and not flag & 1) or (f in (13, 14) and not flag & 2))):
                         sup = a[idx]
-                if k == 11 and flag >= 4:
+                if k == 11 and (flag // 4) % 2 == 1:
                     sup = 2 + 1
                 if k == 12 and ((f == 1 and flag & 1) or (f == 3 and flag & 2)):
                     sup = 2 + (1 if f == 1 else 2)
@@ -296,7 +347,8 @@ def secrets_of(sess_ops, results):
                 sup = a[0]
             supplied = sup is not None and sup >= 2
             out.append({"op": i, "opv": op, "obj": j, "kind": k, "field": f, "value": v, "supplied_arg": sup,
-                        "invented": (not supplied) and len(v) > 0, "epoch": kinds[j][3] if op[0] == 2 else epoch})
+                        "invented": (not supplied) and len(v) > 0, "epoch": epoch,
+                        "reused_config_of": op[1] if op[0] == 4 else None})
     return out
 
 
@@ -331,7 +383,7 @@ def oracle_session(rep, sess, results, mode, global_real):
     for s in secs:
         a = s["supplied_arg"]
         if a is not None and a >= 2:
-            want = bytes(8) if (s["kind"] == 3 and s["field"] == 4) else given(a - 2, len(s["value"]))
+            want = bytes(8) if (s["kind"] in (3, 16) and s["field"] == 4) else given(a - 2, len(s["value"]))
             if s["field"] % 20 == 12:
                 want = given(a - 2, 12) + bytes(4)
             if s["value"] != want:
@@ -423,11 +475,18 @@ def run(tier):
     vlib.check_theorems(rep, PID, THEOREMS_GENERAL, ["Proofs/FreshProofs.vo"])
     vlib.check_theorems(rep, PID, THEOREMS_THIS_TREE, ["Proofs/FreshGenProofs.vo"])
     vlib.audit(rep)
+    if thorough:
+        mods = " ".join(f"V.Props.{PID}.{t}" for t in THEOREMS_GENERAL + THEOREMS_THIS_TREE)
+        rc, out = vlib.sh(f"timeout 1500 coqchk -silent -o -R . V {mods}", cwd=vlib.COQ, timeout=1600)
+        tail = out[out.find("CONTEXT SUMMARY"):] if "CONTEXT SUMMARY" in out else out[-1500:]
+        clean = rc == 0 and all(f"{k}: <none>" in tail for k in (
+            "Axioms", "type-in-type", "unsafe (co)fixpoints", "positivity is assumed"))
+        rep.obligation("coqchk:independent re-check of the compiled theorems, no axioms / unsafe flags", clean, tail)
     # cases
     sessions = []
     for h in exhaustive_sessions():
         sessions.append({"ops": h, "mode": "count", "stream": "exhaustive constructor arguments (absent / empty / given), twice each"})
-    n_rand = 120 if thorough else 14
+    n_rand = 90 if thorough else 14
     for i in range(n_rand):
         h = gen_history(rng, rng.choice([12, 20, 30, 45]) if not thorough else rng.choice([12, 25, 40, 70, 120]),
                         heavy=(i % 3 != 2))
@@ -450,7 +509,7 @@ def run(tier):
     global_real = {}
     stats = {}
     seen_shapes = set()
-    site_problems, sites_seen = [], set()
+    site_problems, sites_seen, cfg_problems = [], set(), []
     table = {(r["file"], r["line"]): r for r in (an["table"] if an else [])}
     for s in sessions:
         if s["id"] not in res_by_id:
@@ -464,12 +523,21 @@ def run(tier):
         st["secrets"] += nsec
         st["invented"] += ninv
         st["rejected"] += sum(1 for r in results if r["st"] in (1, 2, 3))
-        for op, r in zip(s["ops"], results):
+        okinds = []
+        for oi, (op, r) in enumerate(zip(s["ops"], results)):
             st["draws"] += len(r["draws"])
-            if r["st"] == 0 and op[0] in (2, 3):
-                kd = op[1] if op[0] == 2 else next((o2[1] for n2, o2 in enumerate(
-                    [o3 for o3, r3 in zip(s["ops"], results) if o3[0] == 2 and r3["st"] == 0]) if n2 == op[1]), 0)
-                shape = (op[0], kd, op[2], tuple(min(x, 2) for x in (op[3] if op[0] == 2 else [op[3]])))
+            if r.get("extra", {}).get("cfg_changed"):
+                cfg_problems.append(f"session {s['id']} step {oi} {op}: the builder modified the caller's configuration object")
+            if r["st"] == 0 and op[0] in (2, 3, 4):
+                if op[0] == 2:
+                    okinds.append((op[1], op[2], tuple(min(x, 2) for x in op[3])))
+                    shape = (2,) + okinds[-1]
+                elif op[0] == 4:
+                    okinds.append(okinds[op[1]])
+                    shape = (4,) + okinds[-1]
+                    st["reuse"] = st.get("reuse", 0) + 1
+                else:
+                    shape = (3, okinds[op[1]][0], op[2], min(op[3], 2))
                 if shape not in seen_shapes:      # a shape counts once over all streams
                     seen_shapes.add(shape)
                     st["distinct"].add(shape)
@@ -492,6 +560,8 @@ def run(tier):
     if an is not None:
         rep.obligation("sites:every runtime draw comes from an extracted site with the extracted phase", not site_problems,
                        "; ".join(sorted(set(site_problems))[:10]))
+    rep.obligation("config:builders leave the caller's configuration object unchanged (model: immutable input)",
+                   not cfg_problems, "; ".join(cfg_problems[:6]))
     # ---- (T2) correspondence with the Coq model
     ndis, ncmp = 0, 0
     if model_ok:
@@ -522,7 +592,8 @@ def run(tier):
     for name, st in stats.items():
         rep.add_stream(name, st["ops"], len(st["distinct"]), samples=st["samples"], exhaustive=name.startswith("exhaustive"),
                        extra={"sessions": st["sessions"], "secrets_observed": st["secrets"], "secrets_invented": st["invented"],
-                              "entropy_draws": st["draws"], "rejected_or_error": st["rejected"]})
+                              "entropy_draws": st["draws"], "rejected_or_error": st["rejected"],
+                              "builds_from_a_reused_config_object": st.get("reuse", 0)})
     shutil.rmtree(work, ignore_errors=True)
     return rep.finish(
         rule="evaluations = operations executed on the real implementation (constructions, exports, lazy reads, imports, "
@@ -536,7 +607,8 @@ def run(tier):
                       "the OS generator behind secrets.token_bytes: draws at different stream positions differ"],
         checker_cmd="coqc -R . V Props/C17/*.v (after make Proofs/FreshProofs.vo Proofs/FreshGenProofs.vo)",
         assumptions=["entropy quality: two different draws of secrets.token_bytes (>= 8 bytes) do not collide",
-                     "artifacts are built through the public constructors / load_from_config exercised by tools/impl/c17_impl.py",
+                     "artifacts are built through the public constructors / load_from_config exercised by tools/impl/c17_impl.py, "
+                     "including repeated builds from one and the same configuration object",
                      "sites of logical ids %s were exercised at run time" % sorted(sites_seen)],
         extra_cov={"sites_extracted": len(an["table"]) if an else 0, "sites_exercised": sorted(sites_seen)})
 
